@@ -1,3 +1,586 @@
 package main
 
-func fakenetStress(args []string) {}
+// C41 -- x/fakenet Conn: Read / Write (connFeeder.do), the feeder goroutines, Close.
+//
+// fakenet-stress: seeded runs of a real fakenet connection over underlying streams the harness
+// controls (a reader that yields chunks only when released -- or never, like a terminal --, a writer
+// that blocks until released; their Close may or may not unblock a pending call).  Writers, readers
+// and closers run freely; every call start / end, every call of the underlying streams and every
+// underlying Close is logged with a number from one atomic counter.  Checked here (the statement of
+// C41, executable): bytes reaching the underlying writer are whole payloads, once, in call order;
+// Read data is the stream, in order, nothing twice; a call started after Close returned gives
+// (0, EOF); every pending call returns within 2 s of Close returning.  The traces are validated by
+// TLC against specs/conc/FakeNetTrace.tla with the channel steps silent.
+
+import (
+	"bytes"
+	"errors"
+	"fmt"
+	"io"
+	"math/rand"
+	"runtime"
+	"sort"
+	"sync"
+	"sync/atomic"
+	"time"
+
+	"github.com/goplus/xgo/x/fakenet"
+
+	"verifharness/hlib"
+)
+
+const promptCap = 2 * time.Second
+
+var errUnderClosed = errors.New("underlying stream closed")
+
+// ------------------------------------------------------------------ yield hook
+
+var yieldMode atomic.Int64
+var yieldCtr atomic.Uint64
+
+func init() {
+	fakenet.VerifYield = func(site int) {
+		m := yieldMode.Load()
+		if m == 0 {
+			return
+		}
+		c := yieldCtr.Add(1)
+		h := (c*0x9E3779B97F4A7C15 + uint64(m)*uint64(site+7)) >> 33
+		switch h % uint64(3+m%3) {
+		case 0:
+			runtime.Gosched()
+		case 1:
+			spin(time.Duration(h%20) * time.Microsecond)
+		}
+	}
+}
+
+// ------------------------------------------------------------------ underlying streams
+
+type under struct {
+	log      *evlog
+	buf      *evbuf
+	rel      chan int      // release tokens
+	closedCh chan struct{} // closed by Close when closeUnblocks
+	kill     chan struct{} // end of the recorded part
+	unblocks bool
+	once     sync.Once
+	which    string
+	inCall   atomic.Bool
+}
+
+func (u *under) Close() error {
+	u.log.add(u.buf, map[string]any{"op": "uclose", "ph": u.which})
+	if u.unblocks {
+		u.once.Do(func() { close(u.closedCh) })
+	}
+	return nil
+}
+
+type uReader struct {
+	under
+	stream []byte
+	pos    int
+}
+
+func (u *uReader) Read(b []byte) (int, error) {
+	u.inCall.Store(true)
+	defer u.inCall.Store(false)
+	u.log.add(u.buf, map[string]any{"op": "ur", "ph": "enter", "len": len(b)})
+	select {
+	case want := <-u.rel:
+		n := want
+		if n > len(b) {
+			n = len(b)
+		}
+		if n > len(u.stream)-u.pos {
+			n = len(u.stream) - u.pos
+		}
+		if n <= 0 {
+			if len(b) == 0 {
+				u.log.add(u.buf, map[string]any{"op": "ur", "ph": "ret", "n": 0, "err": "nil", "off": u.pos})
+				return 0, nil
+			}
+			u.log.add(u.buf, map[string]any{"op": "ur", "ph": "ret", "n": 0, "err": "eof", "off": 0})
+			return 0, io.EOF
+		}
+		copy(b, u.stream[u.pos:u.pos+n])
+		u.log.add(u.buf, map[string]any{"op": "ur", "ph": "ret", "n": n, "err": "nil", "off": u.pos})
+		u.pos += n
+		return n, nil
+	case <-u.closedCh:
+		u.log.add(u.buf, map[string]any{"op": "ur", "ph": "ret", "n": 0, "err": "other", "off": 0})
+		return 0, errUnderClosed
+	case <-u.kill:
+		return 0, errUnderClosed
+	}
+}
+
+type payloadKey struct {
+	k, id int
+}
+
+type uWriter struct {
+	under
+	mu       sync.Mutex
+	payloads map[payloadKey][]byte
+	seen     map[payloadKey]bool
+	lastID   map[int]int
+	wireBad  []string // S1 failures: structural class
+	wireInfo []string
+}
+
+func (u *uWriter) Write(b []byte) (int, error) {
+	u.inCall.Store(true)
+	defer u.inCall.Store(false)
+	kname, id := "?", 0
+	u.mu.Lock()
+	if len(b) >= 2 {
+		key := payloadKey{int(b[0]), int(b[1])}
+		if full, ok := u.payloads[key]; ok {
+			kname, id = fmt.Sprintf("w%d", key.k), key.id
+			switch {
+			case len(b) > len(full) || !bytes.Equal(b, full[:len(b)]):
+				u.wireBad = append(u.wireBad, "modified-payload")
+				kname, id = "?", 0
+			case len(b) < len(full):
+				u.wireBad = append(u.wireBad, "short-payload")
+			case u.seen[key]:
+				u.wireBad = append(u.wireBad, "duplicate-payload")
+			case key.id < u.lastID[key.k]:
+				u.wireBad = append(u.wireBad, "out-of-order-payload")
+			}
+			u.seen[key] = true
+			if key.id > u.lastID[key.k] {
+				u.lastID[key.k] = key.id
+			}
+		} else {
+			u.wireBad = append(u.wireBad, "unknown-payload")
+		}
+	} else {
+		u.wireBad = append(u.wireBad, "unknown-payload")
+	}
+	if len(u.wireBad) > len(u.wireInfo) {
+		u.wireInfo = append(u.wireInfo, fmt.Sprintf("out.Write got % x", b))
+	}
+	u.mu.Unlock()
+	u.log.add(u.buf, map[string]any{"op": "uw", "ph": "enter", "k": kname, "id": id, "len": len(b)})
+	select {
+	case <-u.rel:
+		u.log.add(u.buf, map[string]any{"op": "uw", "ph": "ret", "n": len(b), "err": "nil"})
+		return len(b), nil
+	case <-u.closedCh:
+		u.log.add(u.buf, map[string]any{"op": "uw", "ph": "ret", "n": 0, "err": "other"})
+		return 0, errUnderClosed
+	case <-u.kill:
+		return 0, errUnderClosed
+	}
+}
+
+// ------------------------------------------------------------------ one run
+
+type fcall struct {
+	g          string
+	op         string
+	startSeq   uint64
+	endSeq     uint64
+	n          int
+	err        string
+	off        int
+	dataOK     bool
+	returned   bool
+	id, length int
+}
+
+type fproc struct {
+	name  string
+	gid   atomic.Uint64
+	buf   *evbuf
+	calls []*fcall
+	mu    sync.Mutex
+	done  atomic.Bool
+}
+
+func errClass(err error) string {
+	switch {
+	case err == nil:
+		return "nil"
+	case err == io.EOF:
+		return "eof"
+	}
+	return "other"
+}
+
+func payloadOf(k, id, n int) []byte {
+	b := make([]byte, n)
+	b[0], b[1] = byte(k), byte(id)
+	for i := 2; i < n; i++ {
+		b[i] = byte(0x40 + (k*31+id*7+i*3)%0x3f)
+	}
+	return b
+}
+
+type fnResult struct {
+	evs    []map[string]any
+	shape  string
+	viols  [][2]string // (sig, detail)
+	note   string
+	ncalls int
+}
+
+func fakenetOne(rng *rand.Rand) fnResult {
+	log := &evlog{}
+	nW, nR := 1+rng.Intn(3), 1+rng.Intn(2)
+	nX := 1
+	if rng.Intn(5) == 0 {
+		nX = 2
+	}
+	yieldMode.Store(int64(rng.Intn(6)))
+	streamLen := 4 + rng.Intn(40)
+	in := &uReader{stream: make([]byte, streamLen)}
+	for i := range in.stream {
+		in.stream[i] = byte(i + 1)
+	}
+	in.under = under{log: log, buf: log.buf(), rel: make(chan int), closedCh: make(chan struct{}), kill: make(chan struct{}), unblocks: rng.Intn(2) == 0, which: "in"}
+	out := &uWriter{payloads: map[payloadKey][]byte{}, seen: map[payloadKey]bool{}, lastID: map[int]int{}}
+	out.under = under{log: log, buf: log.buf(), rel: make(chan int), closedCh: make(chan struct{}), kill: make(chan struct{}), unblocks: rng.Intn(2) == 0, which: "out"}
+	readStall := rng.Intn(3) == 0  // the underlying reader never yields anything (a terminal)
+	writeStall := rng.Intn(4) == 0 // the underlying writer blocks for ever after a few writes
+	writeBudget := rng.Intn(4)
+
+	var procs []*fproc
+	var writers, readers []*fproc
+	wscripts := map[string][]int{}
+	rscripts := map[string][]int{}
+	for i := 1; i <= nW; i++ {
+		p := &fproc{name: fmt.Sprintf("w%d", i), buf: log.buf()}
+		writers = append(writers, p)
+		procs = append(procs, p)
+		var lens []int
+		for k := 1 + rng.Intn(3); k > 0; k-- {
+			lens = append(lens, 3+rng.Intn(6))
+		}
+		lens = append(lens, 3+rng.Intn(6)) // the last one is issued after Close has returned
+		wscripts[p.name] = lens
+		for id, n := range lens {
+			out.payloads[payloadKey{i, id + 1}] = payloadOf(i, id+1, n)
+		}
+	}
+	for i := 1; i <= nR; i++ {
+		p := &fproc{name: fmt.Sprintf("r%d", i), buf: log.buf()}
+		readers = append(readers, p)
+		procs = append(procs, p)
+		var lens []int
+		for k := 1 + rng.Intn(3); k > 0; k-- {
+			lens = append(lens, 1+rng.Intn(6))
+		}
+		lens = append(lens, 1+rng.Intn(6))
+		rscripts[p.name] = lens
+	}
+
+	conn := fakenet.NewConn("verif", in, out)
+	start := make(chan struct{})
+	closeReturned := make(chan struct{})
+	var closeOnce sync.Once
+	var closeEndSeq atomic.Uint64
+	var wg sync.WaitGroup
+	mkDelay := func() func() {
+		r := rand.New(rand.NewSource(rng.Int63()))
+		return func() {
+			switch r.Intn(4) {
+			case 0:
+				runtime.Gosched()
+			case 1:
+				spin(time.Duration(r.Intn(40)) * time.Microsecond)
+			case 2:
+				time.Sleep(time.Duration(r.Intn(200)) * time.Microsecond)
+			}
+		}
+	}
+	runCaller := func(p *fproc, isWriter bool, idx int, lens []int) {
+		defer wg.Done()
+		defer p.done.Store(true)
+		p.gid.Store(goid())
+		d := mkDelay()
+		<-start
+		for i, n := range lens {
+			if i == len(lens)-1 {
+				<-closeReturned // started after Close has returned
+			} else {
+				d()
+			}
+			c := &fcall{g: p.name, length: n, id: i + 1}
+			p.mu.Lock()
+			p.calls = append(p.calls, c)
+			p.mu.Unlock()
+			if isWriter {
+				c.op = "write"
+				b := payloadOf(idx, i+1, n)
+				c.startSeq = log.add(p.buf, map[string]any{"op": "write", "ph": "start", "g": p.name, "id": i + 1, "len": n})
+				m, err := conn.Write(b)
+				c.n, c.err = m, errClass(err)
+				c.endSeq = log.add(p.buf, map[string]any{"op": "write", "ph": "end", "g": p.name, "n": m, "err": c.err})
+			} else {
+				c.op = "read"
+				b := make([]byte, n)
+				c.startSeq = log.add(p.buf, map[string]any{"op": "read", "ph": "start", "g": p.name, "len": n})
+				m, err := conn.Read(b)
+				c.n, c.err = m, errClass(err)
+				c.dataOK = true
+				if m > 0 && m <= len(b) {
+					c.off = int(b[0]) - 1
+					for j := 0; j < m; j++ {
+						if int(b[j]) != c.off+j+1 {
+							c.dataOK = false
+						}
+					}
+				} else if m != 0 {
+					c.dataOK = false
+				}
+				c.endSeq = log.add(p.buf, map[string]any{"op": "read", "ph": "end", "g": p.name, "n": m, "err": c.err, "off": c.off})
+			}
+			p.mu.Lock()
+			c.returned = true
+			p.mu.Unlock()
+		}
+	}
+	for i, p := range writers {
+		wg.Add(1)
+		go runCaller(p, true, i+1, wscripts[p.name])
+	}
+	for _, p := range readers {
+		wg.Add(1)
+		go runCaller(p, false, 0, rscripts[p.name])
+	}
+	// closers
+	closeAfter := uint64(rng.Intn(45)) // Close is called once this many events have been logged
+	if rng.Intn(6) == 0 {
+		closeAfter = 0
+	}
+	var closers []*fproc
+	closeDone := make(chan struct{}, 2)
+	for i := 1; i <= nX; i++ {
+		p := &fproc{name: fmt.Sprintf("x%d", i), buf: log.buf()}
+		closers = append(closers, p)
+		go func(p *fproc, extra time.Duration) {
+			p.gid.Store(goid())
+			<-start
+			for t0 := time.Now(); log.ctr.Load() < closeAfter && time.Since(t0) < 30*time.Millisecond; {
+				time.Sleep(10 * time.Microsecond)
+			}
+			time.Sleep(extra)
+			log.add(p.buf, map[string]any{"op": "close", "ph": "start", "g": p.name})
+			conn.Close()
+			closeEndSeq.CompareAndSwap(0, log.add(p.buf, map[string]any{"op": "close", "ph": "end", "g": p.name}))
+			p.done.Store(true)
+			closeOnce.Do(func() { close(closeReturned) })
+			closeDone <- struct{}{}
+		}(p, time.Duration(rng.Intn(50))*time.Microsecond)
+	}
+	// environment: releases underlying calls
+	envStop := make(chan struct{})
+	var envWG sync.WaitGroup
+	envWG.Add(1)
+	go func() {
+		defer envWG.Done()
+		r := rand.New(rand.NewSource(rng.Int63()))
+		<-start
+		for {
+			select {
+			case <-envStop:
+				return
+			default:
+			}
+			switch r.Intn(3) {
+			case 0:
+				if !readStall {
+					select {
+					case in.rel <- 1 + r.Intn(5):
+					default:
+					}
+				}
+			case 1:
+				if !writeStall || writeBudget > 0 {
+					select {
+					case out.rel <- 1:
+						writeBudget--
+					default:
+					}
+				}
+			}
+			switch r.Intn(3) {
+			case 0:
+				runtime.Gosched()
+			case 1:
+				spin(time.Duration(r.Intn(30)) * time.Microsecond)
+			default:
+				time.Sleep(time.Duration(r.Intn(100)) * time.Microsecond)
+			}
+		}
+	}()
+	for _, p := range procs {
+		for p.gid.Load() == 0 {
+			runtime.Gosched()
+		}
+	}
+	close(start)
+
+	res := fnResult{}
+	fail := func(sig, detail string) { res.viols = append(res.viols, [2]string{sig, detail}) }
+	// Close must return
+	closedOK := 0
+	tmo := time.After(promptCap + time.Second)
+	for closedOK < nX {
+		select {
+		case <-closeDone:
+			closedOK++
+		case <-tmo:
+			st := gstates()
+			stuck := false
+			for _, p := range closers {
+				if !p.done.Load() && !isRunningState(st[p.gid.Load()]) {
+					stuck = true
+					fail("close-did-not-return:"+st[p.gid.Load()], "Close has not returned after 3 s; goroutine state "+st[p.gid.Load()])
+				}
+			}
+			if !stuck {
+				res.note = "overload"
+			}
+			closedOK = nX
+			closeOnce.Do(func() { close(closeReturned) })
+		}
+	}
+	tClose := time.Now()
+	// every pending call, and the calls started afterwards, must return promptly
+	allDone := make(chan struct{})
+	go func() { wg.Wait(); close(allDone) }()
+	select {
+	case <-allDone:
+	case <-time.After(promptCap):
+		// A goroutine that close(done) has made runnable but that did not get the CPU shows as
+		// running/runnable: that is load, not the connection.  A goroutine that is still parked on a
+		// channel 2 s after Close returned was not released by Close.
+		time.Sleep(50 * time.Millisecond)
+		st := gstates()
+		for _, p := range procs {
+			if p.done.Load() {
+				continue
+			}
+			s := st[p.gid.Load()]
+			p.mu.Lock()
+			var cur *fcall
+			if len(p.calls) > 0 && !p.calls[len(p.calls)-1].returned {
+				cur = p.calls[len(p.calls)-1]
+			}
+			p.mu.Unlock()
+			if cur == nil || isRunningState(s) {
+				res.note = "overload"
+				continue
+			}
+			when := "pending"
+			if cur.id == len(wscripts[p.name])+len(rscripts[p.name]) {
+				when = "started-after-close"
+			}
+			fail(fmt.Sprintf("not-released:%s:%s:%s", cur.op, when, s),
+				fmt.Sprintf("%s %s call #%d has not returned %v after Close returned; goroutine state %q (underlying reader stalls=%v, writer stalls=%v)",
+					p.name, cur.op, cur.id, time.Since(tClose).Round(time.Millisecond), s, readStall, writeStall))
+		}
+	}
+	hb := log.buf()
+	complete := true
+	for _, p := range procs {
+		if !p.done.Load() {
+			complete = false
+		}
+	}
+	if complete && res.note == "" {
+		log.add(hb, map[string]any{"op": "final", "ph": "-"})
+	}
+	log.off.Store(true)
+	close(envStop)
+	close(in.kill)
+	close(out.kill)
+	envWG.Wait()
+	res.evs = log.merged()
+
+	// ---- the statement of C41, executable on the recorded calls
+	out.mu.Lock()
+	for i, b := range out.wireBad {
+		fail("wire:"+b, out.wireInfo[i])
+	}
+	out.mu.Unlock()
+	ce := closeEndSeq.Load()
+	var reads []*fcall
+	for _, p := range procs {
+		p.mu.Lock()
+		for _, c := range p.calls {
+			res.ncalls++
+			if !c.returned {
+				continue
+			}
+			if ce != 0 && c.startSeq > ce && !(c.n == 0 && c.err == "eof") {
+				cls := "error-" + c.err
+				if c.err == "nil" {
+					cls = "success"
+				}
+				fail("after-close:"+c.op+":"+cls, fmt.Sprintf("%s %s #%d started after Close had returned gave (%d, %s)", p.name, c.op, c.id, c.n, c.err))
+			}
+			if c.op == "write" && c.err == "nil" && c.n != c.length {
+				fail("write:short-count", fmt.Sprintf("%s Write #%d of %d bytes returned (%d, nil)", p.name, c.id, c.length, c.n))
+			}
+			if c.op == "read" {
+				if !c.dataOK || c.n > c.length {
+					fail("read:corrupt-data", fmt.Sprintf("%s Read #%d returned n=%d with bytes that are not a piece of the stream", p.name, c.id, c.n))
+				} else if c.n > 0 {
+					reads = append(reads, c)
+				}
+			}
+		}
+		p.mu.Unlock()
+	}
+	sort.Slice(reads, func(i, j int) bool { return reads[i].off < reads[j].off })
+	for i := 0; i+1 < len(reads); i++ {
+		a, b := reads[i], reads[i+1]
+		if a.off+a.n > b.off {
+			fail("read:duplicate-bytes", fmt.Sprintf("Reads returned overlapping pieces [%d,%d) and [%d,%d)", a.off, a.off+a.n, b.off, b.off+b.n))
+		} else if b.endSeq < a.startSeq {
+			fail("read:out-of-order", fmt.Sprintf("a Read that finished earlier got the later piece [%d,%d) vs [%d,%d)", b.off, b.off+b.n, a.off, a.off+a.n))
+		}
+	}
+	res.shape = fmt.Sprintf("W%d/R%d/X%d/rstall=%v/wstall=%v/in-unblocks=%v/out-unblocks=%v", nW, nR, nX, readStall, writeStall, in.unblocks, out.unblocks)
+	return res
+}
+
+func fakenetStress(args []string) {
+	n := argInt(args, "-n", 300)
+	seed := hlib.Seed()
+	tf := openTraceFile("ftraces-stress.ndjson")
+	defer tf.close()
+	calls := 0
+	for i := 0; i < n; i++ {
+		rng := rand.New(rand.NewSource(seed*7000003 + int64(i)))
+		r := fakenetOne(rng)
+		calls += r.ncalls
+		if r.note == "overload" && len(r.viols) == 0 {
+			if overloaded() {
+				hlib.EmitRaw(map[string]any{"v": "overload", "detail": "calls were runnable but had not returned within the cap while the machine is overloaded"})
+				continue
+			}
+			r.viols = append(r.viols, [2]string{"not-returned-while-runnable", "a call stayed runnable for 2 s on an idle machine"})
+		}
+		id := tf.put(map[string]any{"src": "stress"}, r.evs)
+		if len(r.viols) > 0 {
+			seen := map[string]bool{}
+			for _, v := range r.viols {
+				if seen[v[0]] {
+					continue
+				}
+				seen[v[0]] = true
+				hlib.EmitRaw(map[string]any{"v": "viol", "id": id, "sig": v[0], "detail": v[1], "nt": r.shape, "input": map[string]any{"run": i, "shape": r.shape}})
+			}
+			continue
+		}
+		hlib.EmitRaw(map[string]any{"v": "trace", "id": id, "src": "stress", "nt": r.shape, "events": len(r.evs)})
+	}
+	hlib.EmitRaw(map[string]any{"v": "summary", "fakenet_calls": calls})
+}
